@@ -13,7 +13,8 @@ Definition all_count_pairs_well_typed : bool :=
 
 Definition all_caps_well_typed : bool :=
   forallb (fun e => match e with (m, p, _) => cap_well_typed (module_tree m) p end) collection_caps
-  && forallb (fun e => match e with (m, p, _) => bytes_cap_well_typed (module_tree m) p end) bytes_caps.
+  && forallb (fun e => match e with (m, p, _) => bytes_cap_well_typed (module_tree m) p end) bytes_caps
+  && forallb (fun e => match e with (m, p, _) => int_cap_well_typed (module_tree m) p end) int_caps.
 
 Definition all_static_functions_wf : bool :=
   forallb (fun e => match e with
